@@ -59,11 +59,30 @@ def run(chk):
                 dict(kind="matching-scale-lower-nf-backward", scale=4.5, nf=4, side=-1, origin=(10.0, 5)),
                 dict(kind="matching-scale-upper-nf-from-above", scale=4.5, nf=5, side=+1, origin=(10.0, 5)),
                 dict(kind="charm-scale-upper-nf", scale=2.0, nf=4, side=+1, origin=(1.5, 3)),
+                dict(kind="charm-scale-lower-nf", scale=2.0, nf=3, side=-1, origin=(1.5, 3)),
+                dict(kind="top-scale-lower-nf", scale=173.0, nf=5, side=-1, origin=(100.0, 5)),
+                dict(kind="top-scale-upper-nf", scale=173.0, nf=6, side=+1, origin=(100.0, 5)),
                 dict(kind="initial-scale", scale=3.0, nf=4, side=+1, origin=(3.0, 4)),
                 dict(kind="initial-scale-down", scale=3.0, nf=4, side=-1, origin=(3.0, 4)),
                 dict(kind="interior", scale=3.5, nf=4, side=+1, origin=(3.0, 4)),
             ):
                 cjobs.append((dict(w, walls=walls), sv, xif, order))
+    if not chk.thorough():
+        # quick tier: the boundary cases at NLO and NNLO under the expanded scheme with a ratio away from one
+        for order in ((2, 0), (3, 0)):
+            for w in (
+                dict(kind="matching-scale-lower-nf", scale=4.5, nf=4, side=-1, origin=(3.0, 4)),
+                dict(kind="matching-scale-upper-nf", scale=4.5, nf=5, side=+1, origin=(3.0, 4)),
+                dict(kind="initial-scale", scale=3.0, nf=4, side=+1, origin=(3.0, 4)),
+            ):
+                cjobs.append((dict(w, walls=walls), "expanded", 2.0, order))
+    else:
+        for w in (
+            dict(kind="matching-scale-lower-nf", scale=4.5, nf=4, side=-1, origin=(3.0, 4)),
+            dict(kind="matching-scale-upper-nf", scale=4.5, nf=5, side=+1, origin=(3.0, 4)),
+        ):
+            for sv, xif in (("expanded", 2.0), ("exponentiated", 0.5)):
+                cjobs.append((dict(w, walls=walls), sv, xif, (3, 0)))
     with mp.get_context("fork").Pool(16) as pool:
         crecs = pool.map(_cont, cjobs, chunksize=1)
     for c in crecs:
